@@ -52,6 +52,9 @@ FAMILIES = [
     [[[None, "joule", 1]], [["kilo", "joule", 1]], [[None, "newton", 1], [None, "meter", 1]], [["kilo", "gram", 1], [None, "meter", 2], [None, "second", -2]]],
     [[[None, "bit", 1]], [[None, "byte", 1]], [["kilo", "bit", 1]], [["kibi", "bit", 1]]],
     [[[None, "liter", 1]], [["milli", "liter", 1]], [[None, "gallon", 1]], [[None, "pint", 1]], [[None, "hogshead", 1]], [[None, "barrel", 1]], [[None, "quart", 1]], [[None, "cup", 1]]],
+    # rates whose numerator is a volume unit declared only relative to other volume units (the planner's reverse match)
+    [[[None, "liter", 1], [None, "second", -1]], [[None, "barrel", 1], [None, "day", -1]], [[None, "quart", 1], [None, "minute", -1]], [[None, "gallon", 1], [None, "hour", -1]],
+     [[None, "cup", 1], [None, "second", -1]]],
     # units several declarations apart, and their pure powers (the path finder's exponent reduction over multi-hop paths)
     [[[None, "hand", 1]], [[None, "fathom", 1]], [[None, "cable", 1]], [[None, "foot", 1]], [[None, "yard", 1]], [[None, "meter", 1]], [[None, "mile", 1]]],
     [[[None, "hand", 2]], [[None, "yard", 2]], [[None, "meter", 2]], [[None, "mile", 2]], [[None, "fathom", 2]]],
